@@ -201,6 +201,10 @@ func (wh *writeHelper) updateCleanSchemaTagsCheck(r *influx.Row, dropTagIndex *[
 			fieldToCreatePool = appendField(fieldToCreatePool, tag.Key, influx.Field_Type_Tag)
 			setLastFieldEndTime(meta2.TimeReserveHigh32(sgEndTime), fieldToCreatePool)
 		} else {
+			// the name exists as a field: queries could never show it as a tag of the point
+			if schemaVal.Typ != influx.Field_Type_Tag {
+				return fieldToUpdateEndTime, fieldToCreatePool, true, errno.NewError(errno.WritePointHasInvalidTag, tag.Key)
+			}
 			endTime := meta2.TimeReserveHigh32(sgEndTime)
 			if schemaVal.EndTime < endTime {
 				if AsyncSchemaEndtimeUpdateEn {
@@ -212,9 +216,6 @@ func (wh *writeHelper) updateCleanSchemaTagsCheck(r *influx.Row, dropTagIndex *[
 				}
 			}
 			if mst.EngineType == config.COLUMNSTORE {
-				if schemaVal.Typ != influx.Field_Type_Tag {
-					return fieldToUpdateEndTime, fieldToCreatePool, true, errno.NewError(errno.WritePointHasInvalidTag, tag.Key)
-				}
 				m := wh.mstPrimaryKeyRowMap[r.Name]
 				if _, exist := m[tag.Key]; exist {
 					(*pkCount)++
@@ -336,15 +337,16 @@ func (wh *writeHelper) updateSchemaCheck(database, rp string, r *influx.Row, mst
 			return fieldToCreatePool, true, err
 		}
 
-		if _, ok := schemaMap.GetTyp(tag.Key); !ok {
+		v, ok := schemaMap.GetTyp(tag.Key)
+		if !ok {
 			fieldToCreatePool = appendField(fieldToCreatePool, tag.Key, influx.Field_Type_Tag)
 			continue
 		}
+		// the name exists as a field: queries could never show it as a tag of the point
+		if v != influx.Field_Type_Tag {
+			return fieldToCreatePool, true, errno.NewError(errno.WritePointHasInvalidTag, tag.Key)
+		}
 		if mst.EngineType == config.COLUMNSTORE {
-			v, _ := schemaMap.GetTyp(tag.Key)
-			if v != influx.Field_Type_Tag {
-				return fieldToCreatePool, true, errno.NewError(errno.WritePointHasInvalidTag, tag.Key)
-			}
 			m := wh.mstPrimaryKeyRowMap[r.Name]
 			if _, exist := m[tag.Key]; exist {
 				pkCount++
